@@ -461,6 +461,8 @@ def run(out: Outcome) -> None:
     out.rule = ("groups of 2-3 detector instances (same class with shared or separate config objects, different classes, with/without history callbacks); every "
                 "interleaving for streams of 2-3 values each, sampled interleavings for long streams; each instance vs alone run and vs its own model run")
     runners: list = []
+    # FIRST in the process, before any other instance of a class exists: what the first instance of a pair leaves behind for its class is then what the second one finds
+    contrasting_configurations(out, rng_for(out.seed, "C16-contrast"), runners)
     n = 40 if thorough else 12
     for i in range(n):
         same = rng.random() < 0.6
@@ -486,7 +488,6 @@ def run(out: Outcome) -> None:
     for c in dets.CLASSES:
         for _ in range(3 if thorough else 1):
             sparse_observation_case(out, rng, c, runners)
-    contrasting_configurations(out, rng, runners)
     shared_user_model_case(out, rng)
     interpreter_variants(out, rng, [c for c in dets.CLASSES if c != "KSWIN"])
     heap_scenarios(out, rng, 60 if thorough else 20)
